@@ -197,8 +197,13 @@ def format_code(
             for node in core.filter_nodes(module.body, ast.ClassDef)
             for funcdef in core.filter_nodes(node.body, fdef_types)
         }
+        class_assignments = {  # Variables assigned directly under a class definition in module scope
+            f"{node.name}.{target.id}"
+            for node in core.filter_nodes(module.body, ast.ClassDef)
+            for target in parsing.iter_assignments(node)
+        }
         assignments = {node.id for node in parsing.iter_assignments(module)}
-        preserve = set(preserve) | defs | class_funcs | assignments
+        preserve = set(preserve) | defs | class_funcs | class_assignments | assignments
 
     if minimum_indent == 0:
         source = fixes.add_missing_imports(source)
